@@ -47,6 +47,10 @@ STRUCT_MAP = {
 # Two-variant enums without discriminants that the model represents by a Bool: name -> {variant: Lean term}
 ENUM_AS_BOOL = {"AmPm": {"Am": "false", "Pm": "true"}}
 
+# Function-pointer types whose only values are two known functions, represented by a Bool as in Generated.lean's
+# week tables (`(true, k)` = `sub_to_date` by k days, `(false, _)` = `current_date`): type -> {function: Lean term}
+FNPTR_MAP = {"DateSubMethod": {"sub_to_date": "true", "current_date": "false"}}
+
 WL_NEWTYPES = ("Date", "Time", "Timestamp", "IntervalYM", "IntervalDT", "OracleDate")
 WL_ENUMS = ("Sign", "WeekDay", "Ordering")
 
@@ -254,6 +258,23 @@ WHITELIST = [
     ("oracle.rs", "OracleDate", "sub_interval_ym", "OracleDate.sub_interval_ym", "self, interval: IntervalYM",
      "Result<OracleDate>", "SqlDt.OracleDate.subIntervalYm"),
 ]
+
+# ---- the calendar units (phase 5, first part): the `Trunc` / `Round` functions of `Date` that are proved so far, and the
+# two functions behind the week tables.  The translator handles ALL of `impl Trunc/Round for Date | Timestamp | oracle::Date`
+# and their helpers (function-pointer tables, nested `fn`, `?` inside a branch): add a line here once its `_eq`/`_safe` exist.
+WHITELIST += [
+    ("date.rs", None, "sub_to_date", "sub_to_date", "date: Date, sub_day: i32", "Result<Date>",
+     "fun d k => SqlDt.Date.subDays d k"),
+    ("date.rs", None, "current_date", "current_date", "date: Date, _sub_day: i32", "Result<Date>",
+     "fun d _ => Except.ok d"),
+]
+for _op, _Op, _units in (("trunc", "Trunc", [("year", "year"), ("week", "week"), ("day", "day"), ("hour", "hour"), ("minute", "minute"),
+                                            ("sunday_start_week", "sundayStartWeek")]),
+                         ("round", "Round", [("century", "century"), ("year", "year"), ("day", "day"), ("hour", "hour"),
+                                            ("minute", "minute")])):
+    for _u, _U in _units:
+        WHITELIST.append(("date.rs", "%s for Date" % _Op, "%s_%s" % (_op, _u), "Date.%s_%s" % (_op, _u), "self", "Result<Date>",
+                          "SqlDt.Date.%s SqlDt.TUnit.%s" % (_op, _U)))
 
 # Derived constants (not literal in the Rust, hence not in Generated.lean): (file, name, model term)
 CONST_WHITELIST = [
@@ -657,7 +678,26 @@ def scan_items(crate, fname, src, toks, lo, hi, impl):
                 i = j + 1
                 continue
             k = match_close(toks, j)
-            item = FnItem(fname, impl, name, params, ret, toks[j + 1:k], t.line, src[toks[j].end:toks[k].pos])
+            body = toks[j + 1:k]
+            # nested `fn` items at the top level of the body become free functions of the file (callable, inlinable)
+            depth, x, keep = 0, 0, []
+            while x < len(body):
+                bt = body[x]
+                if bt.kind == "p" and bt.text in ("(", "[", "{"):
+                    depth += 1
+                elif bt.kind == "p" and bt.text in (")", "]", "}"):
+                    depth -= 1
+                if depth == 0 and bt.kind == "id" and bt.text == "fn" and x + 1 < len(body) and body[x + 1].kind == "id":
+                    y = x
+                    while body[y].text != "{":
+                        y += 1
+                    z = match_close(body, y)
+                    scan_items(crate, fname, src, body, x, z + 1, None)
+                    x = z + 1
+                    continue
+                keep.append(bt)
+                x += 1
+            item = FnItem(fname, impl, name, params, ret, keep, t.line, src[toks[j].end:toks[k].pos])
             item.generic = generic
             item.mut_self = mut_self
             crate.fns.setdefault((fname, impl_canon(fname, impl) if impl else None, name), item)
@@ -950,7 +990,8 @@ class Parser(object):
             if self.peek().kind == "p" and op in ("=", "+=", "-=", "*=", "/=", "%="):
                 self.i += 1
                 rhs = self.parse_expr(0)
-                self.expect(";")
+                if not self.at("}"):
+                    self.expect(";")
                 stmts.append(("assign", op, e, rhs, line))
                 continue
             if self.peek().kind == "p" and op in ("&=", "|=", "^=", "<<=", ">>="):
@@ -1481,7 +1522,7 @@ def lean_type(t):
         return "F64"
     if isinstance(t, tuple) and t[0] == "struct":
         return STRUCT_MAP[t[1]][0]
-    if isinstance(t, tuple) and t[0] == "boolenum":
+    if isinstance(t, tuple) and t[0] in ("boolenum", "fnptr"):
         return "Bool"
     if t == "unit":
         return "Unit"
@@ -1506,7 +1547,7 @@ def type_str(t):
         return t
     if t[0] == "tuple":
         return "(" + ", ".join(type_str(x) for x in t[1]) + ")"
-    if t[0] in ("nt", "enum", "struct", "boolenum"):
+    if t[0] in ("nt", "enum", "struct", "boolenum", "fnptr"):
         return t[1]
     if t[0] in ("result", "option"):
         return "%s<%s>" % (t[0].capitalize(), type_str(t[1]) if t[1] is not None else "_")
@@ -1568,6 +1609,8 @@ class World(object):
                 name = self_ty
             else:
                 name = FILE_TYPE_ALIASES.get(fname, {}).get(name, name)
+            if name in FNPTR_MAP:
+                return ("fnptr", name)
             if fname == "<whitelist>":
                 # the types written in the whitelist are taken as given (the declarations are checked when the
                 # source of a function is resolved), so that a vanished or changed type degrades its functions only
@@ -2084,6 +2127,10 @@ class Translator(object):
                 return ("app", "idxD", [n, ix, ("num", 0)], ("idx", length)), (el if el != "lit" else "i32")
             if isinstance(el, tuple) and el[0] == "array":
                 return ("app", "idxD", [n, ix, A("[]")], ("idx", length)), el
+            if isinstance(el, tuple) and el[0] == "tuple" and all(
+                    is_intlike(c) or (isinstance(c, tuple) and c[0] == "fnptr") for c in el[1]):
+                dflt = ("tuple", [A("false") if isinstance(c, tuple) else ("num", 0) for c in el[1]])
+                return ("app", "idxD", [n, ix, dflt], ("idx", length)), el
             raise Unsupported("indexing an array of %s" % type_str(el))
         if k == "block":
             if not e[1] and e[2] is not None:
@@ -2145,6 +2192,9 @@ class Translator(object):
                 return A(lean_ident(name)), env[name]
             if name == "None":
                 return A("none"), ("option", None)
+            for fp, vals in FNPTR_MAP.items():
+                if name in vals and isinstance(want, tuple) and want == ("fnptr", fp):
+                    return A(vals[name]), ("fnptr", fp)
             c = w.crate.consts.get((None, name))
             if c is not None:
                 return self.const_ref(c, want)
@@ -2306,6 +2356,16 @@ class Translator(object):
                 if not types_compatible(t, inner):
                     raise Unsupported("constructor %s applied to %s" % (name, type_str(t)))
                 return n, ("nt", tn)
+            if name in env and isinstance(env[name], tuple) and env[name][0] == "fnptr":
+                # `f(args)` with `f` one of the two known functions: the call of whichever it is
+                vals = FNPTR_MAP[env[name][1]]
+                ents = dict((v, w.wl.get((None, fn))) for fn, v in vals.items())
+                if ents.get("true") is None or ents.get("false") is None:
+                    raise Unsupported("call through `%s`: the two target functions are not whitelisted" % env[name][1])
+                args = self.tr_args(arg_exprs, env, [t for _, t in ents["true"]["params_t"]])
+                tn, tt = self.call_entry(ents["true"], args)
+                fn_, ft = self.call_entry(ents["false"], args)
+                return ("ite", ("bin", "=", A(lean_ident(name)), A("true")), tn, fn_, None), join_types(tt, ft, "call")
             ent = w.wl.get((None, name))
             if ent is not None:
                 return self.call_entry(ent, self.tr_args(arg_exprs, env, [t for _, t in ent["params_t"]]))
@@ -2438,6 +2498,15 @@ class Translator(object):
             raise Unsupported("float method `.%s()` (the model's soft-float has `round`, `is_nan`, `is_infinite` only)" % name)
         if isinstance(t, tuple) and t[0] == "array" and name == "len" and not arg_exprs and n[0] == "list":
             return ("num", len(n[1])), "usize"
+        if isinstance(t, tuple) and t[0] in ("result", "option") and name == "unwrap_or" and len(arg_exprs) == 1 \
+                and t[1] is not None:
+            dn, dt_ = self.tr_expr(arg_exprs[0], env, t[1])
+            if not types_compatible(dt_, t[1]):
+                raise Unsupported("`.unwrap_or(%s)` on %s" % (type_str(dt_), type_str(t)))
+            v = self.fresh("v")
+            arms = [("Except.ok " + v, A(v)), ("Except.error _", dn)] if t[0] == "result" else \
+                   [("some " + v, A(v)), ("none", dn)]
+            return ("match", n, arms, None), t[1]
         if isinstance(t, tuple) and t[0] == "option" and name == "unwrap" and not arg_exprs and t[1] is not None:
             return unwrap_some(n), t[1]
         raise Unsupported("method `.%s()` on %s" % (name, type_str(t)))
@@ -2681,7 +2750,7 @@ class Translator(object):
                 self.check_leak(body_items, rest, env)
                 return self.seq(body_items + [st] + rest, env, mode, rvars, want)
             if e[0] in ("if", "match", "block"):
-                if contains_kind(e, ("return",)):
+                if contains_kind(e, ("return", "try")):      # `?` is an early return too
                     if mode != "tail":
                         raise Unsupported("line %d: `return` inside a nested expression block" % line)
                     return self.branch_with_rest(e, rest, env, want, comment)
@@ -3095,7 +3164,7 @@ def read_generated(path):
                 if m:
                     if m.group(2) == "Int":
                         ints.add(m.group(1))
-                    elif m.group(2) in ("List Int", "List (List Int)"):
+                    elif m.group(2) in ("List Int", "List (List Int)", "List (Bool × Int)"):
                         tables.add(m.group(1))
     except IOError:
         pass
